@@ -160,6 +160,7 @@ type Stmt struct {
 	Cmd     string    `json:"cmd,omitempty"`
 	Args    []CmdArg  `json:"args,omitempty"`
 	Spell   int       `json:"spell,omitempty"`
+	AsType  string    `json:"as_type,omitempty"` // declare only: the optional `as number|bool|string` suffix
 }
 
 // Node is a dialogue node.
